@@ -11,9 +11,11 @@ import (
 // The "magic byte" codec of coq/theories/Codec/Instance.v, run through the REAL
 // pooled wrappers compress.Compressor / compress.Decompressor of /repo.  A
 // compressed stream is 31 followed by the data; header 30 delivers the data and
-// ends in a Read error, after which Reset(nil) FAILS and the reader is broken
-// for good: if the wrapper put it back in the pool, the next Decode served by
-// it would return "BRK".
+// ends in a Read error that leaves the reader broken although its Reset returns
+// nil (like brotli after "excessive input"); header 29 delivers the data and
+// ends cleanly but the Reset(nil) that follows FAILS and leaves the reader
+// broken.  If the wrapper put a broken reader back in the pool, the next Decode
+// served by it would return "BRK".
 type magicCodec struct {
 	r compress.Decompressor
 	w compress.Compressor
@@ -52,41 +54,41 @@ func (m *magicWriter) Close() error      { return nil }
 func (m *magicWriter) Reset(w io.Writer) { m.w = w }
 
 type magicReader struct {
-	rem                     []byte
-	badEnd, errored, broken bool
+	rem                    []byte
+	badEnd, sticky, broken bool
 }
 
 var (
 	errMagicHeader = errors.New("magic: bad header")
 	errMagicEnd    = errors.New("magic: bad trailer")
-	errMagicBroken = errors.New("magic: reset after a stream error")
+	errMagicSticky = errors.New("magic: reset failed")
 )
 
 func (m *magicReader) load(r io.Reader) error {
 	data, _ := io.ReadAll(r)
-	m.rem, m.badEnd, m.errored = nil, false, false
-	if len(data) == 0 || (data[0] != 31 && data[0] != 30) {
+	m.rem, m.badEnd, m.sticky = nil, false, false
+	if len(data) == 0 || data[0] < 29 || data[0] > 31 {
 		return errMagicHeader
 	}
 	m.rem = append([]byte(nil), data[1:]...)
 	m.badEnd = data[0] == 30
+	m.sticky = data[0] == 29
 	return nil
 }
 
 func (m *magicReader) Reset(r io.Reader) error {
 	if m.broken {
-		if r == nil {
-			return errMagicBroken
+		if r != nil {
+			m.rem, m.badEnd, m.sticky = []byte("BRK"), false, false
 		}
-		m.rem, m.badEnd, m.errored = []byte("BRK"), false, false
 		return nil
 	}
 	if r == nil {
-		if m.errored {
-			m.broken, m.rem, m.badEnd, m.errored = true, nil, false, false
-			return errMagicBroken
+		if m.sticky {
+			m.broken, m.rem, m.badEnd, m.sticky = true, nil, false, false
+			return errMagicSticky
 		}
-		m.rem, m.badEnd, m.errored = nil, false, false
+		m.rem, m.badEnd, m.sticky = nil, false, false
 		return nil
 	}
 	return m.load(r)
@@ -97,7 +99,7 @@ func (m *magicReader) Read(p []byte) (int, error) {
 	m.rem = m.rem[n:]
 	if len(m.rem) == 0 {
 		if m.badEnd {
-			m.errored = true
+			m.broken = true
 			return n, errMagicEnd
 		}
 		return n, io.EOF
